@@ -883,7 +883,7 @@ func runHuge(c *core.Case, w int, st *core.Stats) []core.Violation {
 type c07prop struct{ base }
 
 func (p *c07prop) Plan(tier string, seed int64) []core.Segment {
-	m := tierScale(tier, 40)
+	m := tierScale(tier, 20)
 	segs := []core.Segment{{Kind: "corpus:synthetic", N: 600}, {Kind: "synthetic", N: 9000 * m}, {Kind: "known-finding-reproducer", N: 1},
 		{Kind: "huge-window", N: 4, Chunk: 1}}
 	for _, t := range gen.ParserTypes {
